@@ -106,7 +106,12 @@ pub struct PairCtx {
     pub syms: Vec<String>,
 }
 
+/// `numeric`: integer-only active set {0,1,2} (arithmetic-heavy pairs, marked by a leading
+/// `%numeric` comment in the left program's text) instead of the default mix of integers and a symbol
 pub fn pair_ctx(left: &asp::Program, right: &asp::Program, limit: usize) -> PairCtx {
+    pair_ctx_with(left, right, limit, false)
+}
+pub fn pair_ctx_with(left: &asp::Program, right: &asp::Program, limit: usize, numeric: bool) -> PairCtx {
     let mut preds: Vec<(String, usize)> = vec![];
     for p in left.predicates().into_iter().chain(right.predicates()) {
         let k = (p.symbol, p.arity);
@@ -121,7 +126,16 @@ pub fn pair_ctx(left: &asp::Program, right: &asp::Program, limit: usize) -> Pair
         }
     }
     syms.sort();
-    let active = choose_active(&preds, limit, &syms, false);
+    let mut active = choose_active(&preds, limit, &syms, false);
+    if numeric {
+        for c in [vec![Val::Int(0), Val::Int(1), Val::Int(2)], vec![Val::Int(1), Val::Int(2)]] {
+            let n: usize = preds.iter().map(|(_, a)| c.len().pow(*a as u32)).sum();
+            if n <= limit + 2 {
+                active = c;
+                break;
+            }
+        }
+    }
     for v in &active {
         if let Val::Sym(x) = v {
             if !syms.contains(x) {
@@ -187,7 +201,7 @@ pub fn check_pair(run: Option<&Run>, lt: &str, rt: &str, limit: usize) -> Vec<(S
     let (Ok(left), Ok(right)) = (lt.parse::<asp::Program>(), rt.parse::<asp::Program>()) else {
         return out;
     };
-    let cx = pair_ctx(&left, &right, limit);
+    let cx = pair_ctx_with(&left, &right, limit, lt.starts_with("%numeric"));
     let hs = ht_space(cx.u.len());
     let ws = [W0, W0 + 3];
     let exp: Vec<(Table, Table, i128)> = ws.iter().map(|w| expected(&cx, &left, &right, *w)).collect();
@@ -261,6 +275,24 @@ pub fn gen_rules() -> Vec<String> {
     v
 }
 
+/// all pairs of rules with several arithmetic body/head terms that share variables (nested
+/// existential blocks in the translation: the shapes on which quantifier-scope rewrites
+/// operate), each under the default and under the integer-only active set (`%numeric` marker)
+pub fn arith_pairs() -> Vec<(String, String)> {
+    let mut out = vec![];
+    let arith = [
+        "r :- q(W), p(X+1), q(Y+W).", "r :- q(W), p(X+1), q(X+W).", "r :- p(X+1), q(Y+1).", "r :- p(X+1), q(X+1).", "p(X+Y) :- q(X), q(Y).",
+        "p(X+Y) :- q(X), q(Y), X < Y.", "r :- p(X+Y), q(X-Y).", "r :- p(X*2), q(X+Y), q(Y).", "r :- p(X+1), not q(Y+X), q(Y).", "p(X+1) :- q(X+1), q(Y+1), X != Y.",
+    ];
+    for x in arith {
+        for y in arith {
+            out.push((x.to_string(), y.to_string()));
+            out.push((format!("%numeric\n{x}"), y.to_string()));
+        }
+    }
+    out
+}
+
 pub fn pairs(quick: bool) -> Vec<(String, String)> {
     let a = rule_alphabet();
     let mut out = vec![];
@@ -293,6 +325,7 @@ pub fn pairs(quick: bool) -> Vec<(String, String)> {
             }
         }
     }
+    out.extend(arith_pairs());
     if !quick {
         // 2-rule programs against single rules and against permuted / extended variants
         let n = a.len();
@@ -320,7 +353,7 @@ pub fn run(run: &Run) {
     let all = pairs(quick);
     run.set_extra("pairs_generated", json!(all.len()));
     run.set_extra("configurations_per_pair", json!(cfgs().len()));
-    run.set_rule("every ordered pair of programs over a 40-program alphabet (thorough: + 2-rule programs) and a stride of the pairs of 546 grammar-generated rules (7 head kinds x bodies of 1-2 literals over q/1, p/1, r/0, s/2 and comparisons), plus the alphabet pairs that mention both p and q with p renamed to hq and to tq (names differing by a copy prefix only) x {tau-star, mu} x {independent, sequential} x simplify x eq-break, --direction universal (and forward/backward checked to select the same problems) x ALL classical interpretations of the h-/t-copies (incl. H not subset-of T): set refuting some forward (backward) problem vs set of pairs H subset-of T that satisfy the left (right) program but not the other under the reference semantics; non-trivial = distinct non-empty expected refutation table");
+    run.set_rule("every ordered pair of programs over a 40-program alphabet (thorough: + 2-rule programs) and a stride of the pairs of 546 grammar-generated rules (7 head kinds x bodies of 1-2 literals over q/1, p/1, r/0, s/2 and comparisons), plus the alphabet pairs that mention both p and q with p renamed to hq and to tq (names differing by a copy prefix only), plus all pairs of 10 rules with several arithmetic terms sharing variables (each under the default active set and under the integer-only active set {0,1,2}) x {tau-star, mu} x {independent, sequential} x simplify x eq-break, --direction universal (and forward/backward checked to select the same problems) x ALL classical interpretations of the h-/t-copies (incl. H not subset-of T): set refuting some forward (backward) problem vs set of pairs H subset-of T that satisfy the left (right) program but not the other under the reference semantics; non-trivial = distinct non-empty expected refutation table");
     run.assume("finite slice as in C01; h-/t-copies identified by the documented h/t prefixing");
     let limit = 6;
     let seed = run.seed as usize;
